@@ -34,7 +34,7 @@ pub proof fn lemma_turn_about_another(a: St, b: St, n: Note, u: Uri)
     match n {
         Note::Open(v, t) => { lemma_last_for_push(a.applied, (v, Some(t)), u); }
         Note::Change(v, t) => { lemma_last_for_push(a.applied, (v, Some(t)), u); }
-        Note::Close(v) => { if close_effect(a, v) matches Some(e) { lemma_last_for_push(a.applied, e, u); } }
+        Note::Close(v) => { match close_effect(a, v) { Some(e) => { lemma_last_for_push(a.applied, e, u); } None => {} } }
         Note::Other => {}
     }
 }
@@ -77,7 +77,7 @@ pub proof fn lemma_last_notification_wins(states: Seq<St>, notes: Seq<Note>, u: 
     match notes[j] {
         Note::Open(v, t) => { lemma_last_for_push(a.applied, (v, Some(t)), u); }
         Note::Change(v, t) => { lemma_last_for_push(a.applied, (v, Some(t)), u); }
-        Note::Close(v) => { if close_effect(a, v) matches Some(e) { lemma_last_for_push(a.applied, e, u); } }
+        Note::Close(v) => { match close_effect(a, v) { Some(e) => { lemma_last_for_push(a.applied, e, u); } None => {} } }
         Note::Other => {}
     }
     lemma_untouched_suffix(states, notes, u, j + 1);
@@ -158,7 +158,7 @@ pub proof fn lemma_turn_keeps_consistent(a: St, b: St, n: Note)
             match n {
                 Note::Open(v, t) => { lemma_last_for_push(a.applied, (v, Some(t)), u); }
                 Note::Change(v, t) => { lemma_last_for_push(a.applied, (v, Some(t)), u); }
-                Note::Close(v) => { if close_effect(a, v) matches Some(e) { lemma_last_for_push(a.applied, e, u); } }
+                Note::Close(v) => { match close_effect(a, v) { Some(e) => { lemma_last_for_push(a.applied, e, u); } None => {} } }
                 Note::Other => {}
             }
         }
